@@ -985,7 +985,31 @@ class Gen:
             path, method, op = self.operation(i, used_ops)
             doc["paths"].setdefault(path, {})[method] = op
         doc["components"]["schemas"] = self.comps
-        if any("security" in op for pi in doc["paths"].values() for op in pi.values()):
+        # several methods on one path, with some parameters declared at path-item level (parsed once per operation)
+        for path in list(doc["paths"]):
+            item = doc["paths"][path]
+            if "{" in path or self.rng.random() > 0.3:
+                continue
+            have = [m for m in METHODS if m in item]
+            others = [m for m in ("get", "post", "put", "delete", "patch") if m not in have]
+            if not others:
+                continue
+            _, _, op2 = self.operation(1000 + len(doc["paths"]), used_ops)
+            op2["parameters"] = [p_ for p_ in op2.get("parameters", []) if p_.get("in") != "path"]
+            if not op2["parameters"]:
+                op2.pop("parameters")
+            item[others[0]] = op2
+            first = item[have[0]]
+            movable = [p_ for p_ in first.get("parameters", []) if p_.get("in") in ("query", "header") and not any(q.get("name") == p_["name"] and q.get("in") == p_["in"] for q in op2.get("parameters", []))]
+            if movable and self.rng.random() < 0.7:
+                mv = self.rng.sample(movable, min(len(movable), 2))
+                first["parameters"] = [p_ for p_ in first["parameters"] if p_ not in mv]
+                if not first["parameters"]:
+                    first.pop("parameters")
+                item["parameters"] = mv
+                self.features.add("param:path_item_level_shared")
+            self.features.add("path:two_methods")
+        if any(isinstance(op, dict) and "security" in op for pi in doc["paths"].values() for op in pi.values()):
             doc["components"]["securitySchemes"] = {"bearer": {"type": "http", "scheme": "bearer"}}
         return doc
 
@@ -1043,7 +1067,7 @@ def matrix_kinds(v31: bool) -> dict:
         "union_model_array": {"oneOf": [R("N"), {"type": "array", "items": {"type": "integer"}}]},
         "union_models": {"oneOf": [R("N"), R("N2")]}, "union_date_str": {"oneOf": [{"type": "string", "format": "date"}, {"type": "integer"}]},
         "union_enum_int": {"anyOf": [R("E"), {"type": "integer"}]},
-        "wrap_allof": {"allOf": [R("N")]}, "wrap_oneof": {"oneOf": [R("E")]},
+        "wrap_allof": {"allOf": [R("N")]}, "wrap_oneof": {"oneOf": [R("E")]}, "ref_union": R("U"),
     }
     if v31:
         kinds["typelist"] = {"type": ["string", "integer"]}
@@ -1053,13 +1077,13 @@ def matrix_kinds(v31: bool) -> dict:
 
 def matrix_components() -> dict:
     return {"N": _N(), "N2": _N2(), "E": {"type": "string", "enum": ["a", "b c", "d-e"]}, "IE": {"type": "integer", "enum": [1, 2, -5]},
-            "Alias": {"type": "string", "format": "date-time"},
+            "Alias": {"type": "string", "format": "date-time"}, "U": {"oneOf": [{"type": "integer"}, {"type": "string", "format": "uuid"}]},
             "Base": {"type": "object", "properties": {"base_id": {"type": "integer"}, "shared": {"type": "string"}}, "required": ["base_id"]},
             "Composed": {"allOf": [{"$ref": "#/components/schemas/Base"}, {"type": "object", "properties": {"extra_flag": {"type": "boolean"}}, "required": ["extra_flag"]}]}}
 
 
 QUERY_OK = {"str", "int", "num", "bool", "date", "datetime", "uuid", "strfmt", "enum_str", "enum_int", "const_str", "array_str", "array_int", "array_date", "array_enum",
-            "ref_enum", "ref_int_enum", "ref_alias", "union_scalar", "union_any_of", "typelist", "wrap_oneof", "union_enum_int", "any"}
+            "ref_enum", "ref_int_enum", "ref_alias", "union_scalar", "union_any_of", "typelist", "wrap_oneof", "union_enum_int", "any", "ref_union"}
 HEADER_OK = {"str", "int", "num", "bool", "enum_str", "enum_int", "ref_enum", "ref_int_enum", "strfmt", "uuid", "union_scalar"}
 COOKIE_OK = {"str", "enum_str", "ref_enum", "strfmt", "int", "num", "bool", "date", "uuid", "enum_int", "array_str"}
 PATH_OK = {"str", "int", "num", "bool", "date", "uuid", "enum_str", "enum_int", "ref_enum", "ref_int_enum", "strfmt"}
@@ -1151,6 +1175,12 @@ def sharing_docs() -> list[tuple[str, dict]]:
         P["/docs/by-ref2"] = {"put": {"operationId": "body_by_ref_two", "requestBody": {"$ref": "#/components/requestBodies/DocBody"}, "parameters": [{"name": "pageSize", "in": "query", "schema": {"type": "integer"}}, {"name": "X-Trace-Id", "in": "header", "schema": {"type": "string"}}],
                                       "responses": {"200": {"description": "ok"}, "204": {"description": "none"}, "201": {"description": "typed", "content": {"application/json": {"schema": R("Doc")}}}}},
                               "parameters": [{"name": "X-Trace-Id", "in": "header", "schema": {"type": "integer"}, "required": True}, {"name": "item-level", "in": "query", "schema": {"type": "string"}}]}
+        common = {"name": "id", "in": "query", "schema": {"type": "string"}, "description": "common id filter"}
+        common_enum = {"name": "order", "in": "query", "schema": {"type": "string", "enum": ["asc", "desc", None], "nullable": True}}
+        P["/things/{id}"] = {"get": {"operationId": "get_thing", "parameters": [{"name": "id", "in": "path", "required": True, "schema": {"type": "integer"}}, clone(common), clone(common_enum)], "responses": ok},
+                             "delete": {"operationId": "delete_thing", "parameters": [{"name": "id", "in": "path", "required": True, "schema": {"type": "integer"}}, clone(common_enum)], "responses": ok}}
+        P["/things"] = {"get": {"operationId": "search_things", "parameters": [clone(common), clone(common_enum)], "responses": ok}, "post": {"operationId": "make_thing", "parameters": [clone(common)], "responses": ok},
+                        "parameters": [{"name": "X-Order", "in": "header", "schema": {"type": "string", "enum": ["a", "b", None], "nullable": True}}]}
         pk = list(P)
         pk = pk[variant % len(pk):] + pk[:variant % len(pk)]
         d["paths"] = {x: P[x] for x in pk}
